@@ -40,6 +40,7 @@ func usage() {
 
 func main() {
 	defer cleanupHome()
+	registerDerived()
 	if len(os.Args) < 2 {
 		usage()
 	}
